@@ -92,6 +92,9 @@ pub enum Op {
     TryLock { m: u8 },
     /// releases m if this thread holds it (no-op otherwise)
     Unlock { m: u8 },
+    /// lock + unlock of m performed by a destructor while a panic that is caught inside this
+    /// thread unwinds (`catch_unwind(|| { let _s = Sentinel(m); panic!() })`)
+    UnwindLock { m: u8 },
     // ---- rwlock ----
     RLock { l: u8 },
     TryRLock { l: u8 },
@@ -249,6 +252,7 @@ impl fmt::Display for Op {
             Lock { m } => write!(f, "lock(m{})", m),
             TryLock { m } => write!(f, "trylock(m{})", m),
             Unlock { m } => write!(f, "unlock(m{})", m),
+            UnwindLock { m } => write!(f, "unwind_lock(m{})", m),
             RLock { l } => write!(f, "read(rw{})", l),
             TryRLock { l } => write!(f, "tryread(rw{})", l),
             WLock { l } => write!(f, "write(rw{})", l),
@@ -347,7 +351,7 @@ impl Program {
                 | Cas { a, .. }
                 | FetchUpdate { a, .. }
                 | AWithMut { a, .. } => (0, *a, false),
-                Lock { m } | TryLock { m } | Unlock { m } => (1, *m, false),
+                Lock { m } | TryLock { m } | Unlock { m } | UnwindLock { m } => (1, *m, false),
                 CvWait { c, .. } | CvOne { c } | CvAll { c } => (3, *c, false),
                 RLock { l } | TryRLock { l } | RUnlock { l } => (2, *l, true),
                 WLock { l } | TryWLock { l } | WUnlock { l } => (2, *l, false),
